@@ -189,13 +189,35 @@ def tlc_stats(out):
         st["depth"] = int(m.group(1))
     return st
 
-def validate_trace(trace_path, timeout=3000, module="TraceContract"):
+def validate_trace(trace_path, timeout=3000, module="TraceContract", _prefix=False):
     """TLC trace validation (TraceContract by default) over an ndjson trace. Returns (violations, stats)."""
     rc, out, dt = run_tlc(module, env_extra={"TRACE": trace_path}, timeout=timeout,
                           java_extra="-Dtlc2.tool.queue.IStateQueue=StateDeque")
     m = re.search(r'<<"VIOLATIONS", "(.*)">>', out)
     if "STOPPED_AT" in out or m is None or "No error has been found" not in out:
         stop = re.search(r'<<"STOPPED_AT", (\d+)>>', out)
+        # The contract could not interpret one event (a TLC evaluation error). That is a defect of the
+        # machinery, never a verdict -- but what the contract found in the events BEFORE it still
+        # stands: validate that prefix, and give up (tool error) only if it is clean.
+        depth = re.search(r"The depth of the complete state graph search is (\d+)", out)
+        if depth and not _prefix and int(depth.group(1)) > 2:
+            consumed = int(depth.group(1)) - 1
+            pre = trace_path + ".prefix"
+            with open(trace_path) as f, open(pre, "w") as g:
+                for i, line in enumerate(f):
+                    if i >= consumed:
+                        break
+                    g.write(line)
+            try:
+                viol, st = validate_trace(pre, timeout, module, _prefix=True)
+            except ToolError:
+                viol, st = [], {}
+            finally:
+                if os.path.exists(pre):
+                    os.remove(pre)
+            if viol:
+                st["truncated_at"] = consumed
+                return viol, st
         raise ToolError("trace validation did not consume the trace (%s)\n%s" % (stop.group(1) if stop else "?", out[-3000:]))
     js = m.group(1).encode().decode("unicode_escape")
     viol = json.loads(js)
